@@ -428,6 +428,10 @@ SHADOWING = [
      {"o0": {("t", "a"), ("u", "a"), ("t", "c")}, "o1": {("t", "b"), ("u", "d"), ("t", "a")}}, "duckdb", "by-name"),
     ("WITH w(o0) AS (SELECT a, b FROM t) SELECT * FROM w", None, {"o0": {("t", "a")}, "b": {("t", "b")}}, "snowflake", "short-column-list"),
     ("WITH w(o0) AS (SELECT a, b FROM t) SELECT * FROM w", None, {"o0": {("t", "a")}, "b": {("t", "b")}}, "postgres", "short-column-list"),
+    # a correlated outer column INSIDE the projection of a scalar subquery; a parenthesised root query
+    ("SELECT (SELECT MAX(u.d + s.a) FROM u) AS o0 FROM (SELECT a FROM t) AS s", None, {"o0": {("u", "d"), ("t", "a")}}, None, "correlated-projection"),
+    ("SELECT (SELECT MAX(u.d + t.a) FROM u) AS o0 FROM t", None, {"o0": {("u", "d"), ("t", "a")}}, None, "correlated-projection"),
+    ("(SELECT a AS o0 FROM t) LIMIT 1", None, {"o0": {("t", "a")}}, None, "parenthesised-root"),
 ]
 
 
